@@ -527,7 +527,13 @@ def main_kind(program):
 
 def doc_trials(program):
     try:
-        return docsem.doc_sem(program).T
+        ds = docsem.doc_sem(program)
+        if getattr(ds, "unsat", False):
+            # require_complete_crossing with combinations that cannot occur: the design has no
+            # valid sequence and the library reports an error at synthesis; the documentation
+            # gives no trial count for it
+            return ("unsupported", "complete crossing unsatisfiable")
+        return ds.T
     except docsem.Unsupported as e:
         return ("unsupported", str(e))
     except Exception as e:  # noqa
@@ -579,8 +585,8 @@ def length_check(program, strategies, n=2, timeout=6):
 # --------------------------------------------------------------------------- run / replay
 
 def run(ctx, res):
-    n = 150 if ctx.quick else 1200
-    nlen = 36 if ctx.quick else 400
+    n = 150 if ctx.quick else 700
+    nlen = 36 if ctx.quick else 140
     progs = gen_programs(ctx, n)
     lstep = max(1, len(progs) // nlen)
     res.rule = ("%d programs: gen_design.gen_program (cross/multi/repeat/merge/nest, derived factors within/transition/window, all "
@@ -641,6 +647,10 @@ def run(ctx, res):
         dT = doc_trials(p)
         if isinstance(dT, tuple):
             stats["doc-unsupported"] += 1
+        elif any("WARNING" not in e for e in blk.errors):
+            # the block itself reports an error (e.g. "Complete crossing unsatisfiable"): synthesis refuses it,
+            # and the documentation does not say what its trial count is
+            stats["doc-skipped-block-reports-error"] = stats.get("doc-skipped-block-reports-error", 0) + 1
         else:
             stats["doc-compared"] += 1
             if dT != T:
@@ -652,7 +662,7 @@ def run(ctx, res):
                         "sustain": list(blk.crossing_sustain_counts), "min_trials": blk.min_trials})
         # ---- search 2: lengths of returned sequences
         if (idx < 4 or idx % lstep == 0) and T <= 40:
-            for s, status, detail in length_check(p, STRATEGIES, n=2, timeout=(5 if ctx.quick else 20)):
+            for s, status, detail in length_check(p, STRATEGIES, n=2, timeout=(5 if ctx.quick else 8)):
                 stats["length-runs"] += 1
                 res.count(None, nontrivial=False)
                 if status in ("refused", "timeout", "empty"):
@@ -766,4 +776,4 @@ def replay(ctx, data):
     with ir.quiet():
         T = blk.trials_per_sample()
     dT = doc_trials(p)
-    return (not isinstance(dT, tuple)) and dT != T
+    return (not isinstance(dT, tuple)) and dT != T and not any("WARNING" not in e for e in blk.errors)
